@@ -79,7 +79,7 @@ func propC13(c *Ctx) {
 				continue
 			}
 			a0, a1 := stripConv(call.Call.Args[0]), stripConv(call.Call.Args[1])
-			isSig := func(v ssa.Value) bool { return isLoadOfField(v, fSig) }
+			isSig := func(v ssa.Value) bool { return isFieldValueOrSlice(v, fSig) }
 			isTopic0 := func(v ssa.Value) bool {
 				s, idx, ok := elemOf(v)
 				if !ok {
@@ -217,8 +217,14 @@ func propC13(c *Ctx) {
 				cnt++
 				okSrc := false
 				if call, ok := st.Val.(*ssa.Call); ok {
-					if f := staticCallee(call); f != nil && f.Name() == spec.from && repoNamedIs(f.Signature.Recv().Type(), "dig", "Event") {
-						okSrc = true
+					if f := staticCallee(call); f != nil && f.Signature.Recv() != nil && repoNamedIs(f.Signature.Recv().Type(), "dig", "Event") {
+						if f.Name() == spec.from {
+							okSrc = true
+						}
+						// … or another method of Event that yields the same thing (signatureHash32 as an array)
+						if spec.from == "SignatureHash" && isSigHashFn(w, f) {
+							okSrc = true
+						}
 					}
 				}
 				if fnName(fn) != "dig.New" || !okSrc {
@@ -267,18 +273,7 @@ func propC13(c *Ctx) {
 	}
 	c.Check("R13.2", "Keccak/write-all-then-sum", kec.Pos(), okWrite && okSum, "the whole argument is written and Sum(nil) of that state is returned")
 	sh := w.Fn("dig", "Event.SignatureHash")
-	okSH := false
-	for _, r := range returnsOf(sh) {
-		if call, ok := returnValues(r)[0].(*ssa.Call); ok && staticCallee(call) == kec {
-			if conv, ok := call.Call.Args[0].(*ssa.Convert); ok {
-				if sc, ok := conv.X.(*ssa.Call); ok {
-					if f := staticCallee(sc); f != nil && f.Name() == "Signature" && sc.Call.Args[0] == ssa.Value(sh.Params[0]) {
-						okSH = true
-					}
-				}
-			}
-		}
-	}
+	okSH := isSigHashFn(w, sh)
 	c.Check("R13.2", "Event.SignatureHash", sh.Pos(), okSH, "SignatureHash returns Keccak([]byte(e.Signature()))")
 
 	// ---- R13.3 ----------------------------------------------------------
@@ -367,47 +362,187 @@ func propC13(c *Ctx) {
 	c.Rule("R13.4", "numIndexed counts Indexed over all inputs", 1)
 	ni := w.Fn("dig", "Event.numIndexed")
 	fIndexed := w.Field("dig", "Input", "Indexed")
-	okNI := false
-	// a counter phi incremented on the edge where element.Indexed is true, ranging over e.Inputs
-	allInstrs(ni, func(in ssa.Instruction) {
-		b, ok := in.(*ssa.BinOp)
-		if !ok || b.Op != token.ADD {
-			return
-		}
-		if n, ok := constInt(b.Y); !ok || n != 1 {
-			return
-		}
-		if _, isPhi := b.X.(*ssa.Phi); !isPhi {
-			return
-		}
-		// executed under Indexed == true
-		var idxTrue []Edge
-		allInstrs(ni, func(x ssa.Instruction) {
-			iff, ok := x.(*ssa.If)
-			if !ok {
+	// the result is an accumulator over the elements of e.Inputs whose Indexed flag is set: a counter
+	// incremented for each of them, or the length of a list to which each of them is appended; the
+	// accumulation may live in a helper (topics(), indexed())
+	nreg := NewRegion(ni)
+	idxTrueOf := func(g *ssa.Function) []Edge {
+		var out []Edge
+		allInstrs(g, func(x ssa.Instruction) {
+			v, isV := x.(ssa.Value)
+			if !isV {
 				return
 			}
-			root, chain := fieldChain(iff.Cond)
-			if len(chain) == 1 && chain[0] == fIndexed {
-				if s, idx, ok := elemOf(root); ok && isInduction(idx) {
-					if _, ch := fieldChain(s); len(ch) == 1 && ch[0] == fInputs {
-						idxTrue = append(idxTrue, Edge{iff.Block(), iff.Block().Succs[0]})
-					}
+			if _, isU := x.(*ssa.UnOp); !isU {
+				if _, isF := x.(*ssa.Field); !isF {
+					return
 				}
 			}
+			root, chain := fieldChain(v)
+			if len(chain) != 1 || chain[0] != fIndexed {
+				return
+			}
+			sl, idx, ok := elemOf(root)
+			if !ok || !isInduction(idx) {
+				return
+			}
+			if _, ch := fieldChain(nreg.Resolve(stripConv(sl))); len(ch) == 1 && ch[0] == fInputs {
+				t, _ := boolEdges(v)
+				out = append(out, t...)
+			}
 		})
-		if len(idxTrue) > 0 && guardedByEdges(ni, b, idxTrue) {
-			for _, r := range returnsOf(ni) {
-				if p, ok := returnValues(r)[0].(*ssa.Phi); ok {
-					for _, e := range p.Edges {
-						if e == ssa.Value(b) || p == b.X {
-							okNI = true
-						}
-					}
+		return out
+	}
+	// accumulates: acc is a loop phi stepped once for every element behind an Indexed-true edge
+	accumulates := func(acc ssa.Value, isStep func(v ssa.Value, prev ssa.Value) bool) bool {
+		ph, ok := acc.(*ssa.Phi)
+		if !ok {
+			return false
+		}
+		g := ph.Parent()
+		idxTrue := idxTrueOf(g)
+		if len(idxTrue) == 0 {
+			return false
+		}
+		nStep := 0
+		for _, lf := range phiLeaves(ph) {
+			v := stripConv(lf.Val)
+			if k, isC := v.(*ssa.Const); isC {
+				if k.Value == nil || k.Value.String() == "0" {
+					continue // nil list / zero counter
+				}
+				return false
+			}
+			in, isIn := v.(ssa.Instruction)
+			if !isIn || !isStep(v, ph) || !guardedByEdges(g, in, idxTrue) {
+				return false
+			}
+			// every element with the flag set takes the step: no way round it back to the loop
+			for _, e := range idxTrue {
+				if hit, _ := reach(Site{e.To, -1}, func(x ssa.Instruction) bool { return x == ssa.Instruction(ph) }, newCuts().addInstr(in)); hit {
+					return false
+				}
+			}
+			nStep++
+		}
+		return nStep > 0
+	}
+	stepsFrom := func(v, prev ssa.Value) bool { // v = prev' + 1 with prev' the accumulator (possibly through inner phis)
+		b, ok := v.(*ssa.BinOp)
+		if !ok || b.Op != token.ADD {
+			return false
+		}
+		if n, ok := constInt(b.Y); !ok || n != 1 {
+			return false
+		}
+		for _, lf := range phiLeaves(b.X) {
+			if lf.Val != prev && lf.Val != v {
+				if _, isC := lf.Val.(*ssa.Const); !isC {
+					return false
 				}
 			}
 		}
-	})
+		return true
+	}
+	appendsElem := func(v, prev ssa.Value) bool { // v = append(prev', element of Inputs)
+		call, ok := v.(*ssa.Call)
+		if !ok || calleeName(call) != "builtin append" {
+			return false
+		}
+		for _, lf := range phiLeaves(call.Call.Args[0]) {
+			if lf.Val != prev && lf.Val != v {
+				if k, isC := lf.Val.(*ssa.Const); !isC || k.Value != nil {
+					return false
+				}
+			}
+		}
+		vs, ok := varargValues(call.Call.Args[1])
+		if !ok || len(vs) != 1 {
+			return false
+		}
+		sl, idx, isE := elemOf(vs[0])
+		if !isE || !isInduction(idx) {
+			return false
+		}
+		_, ch := fieldChain(nreg.Resolve(stripConv(sl)))
+		return len(ch) == 1 && ch[0] == fInputs
+	}
+	// results of helpers are looked through; phis are kept (the accumulator is one)
+	var expandRes func(v ssa.Value, d int) []ssa.Value
+	expandRes = func(v ssa.Value, d int) []ssa.Value {
+		v = stripConv(nreg.Resolve(stripConv(v)))
+		if d > 4 {
+			return []ssa.Value{v}
+		}
+		var call *ssa.Call
+		idx := 0
+		switch x := v.(type) {
+		case *ssa.Extract:
+			call, _ = x.Tuple.(*ssa.Call)
+			idx = x.Index
+		case *ssa.Call:
+			call = x
+		}
+		if call != nil {
+			if cal := regionCallee(call); cal != nil && nreg.site[cal] == ssa.CallInstruction(call) {
+				var out []ssa.Value
+				for _, r := range returnsOf(cal) {
+					if vals := returnValues(r); idx < len(vals) {
+						out = append(out, expandRes(vals[idx], d+1)...)
+					}
+				}
+				return out
+			}
+		}
+		return []ssa.Value{v}
+	}
+	okNI := false
+	for _, r := range returnsOf(ni) {
+		good := true
+		leaves := expandRes(returnValues(r)[0], 0)
+		for _, lv := range leaves {
+			lv = stripConv(lv)
+			switch x := lv.(type) {
+			case *ssa.Phi:
+				if !accumulates(x, stepsFrom) {
+					good = false
+				}
+			case *ssa.BinOp:
+				// the value after the last step (returned from inside/after the loop)
+				ok2 := false
+				for _, lf := range phiLeaves(x.X) {
+					if ph, isPhi := lf.Phi, lf.Phi != nil; isPhi && accumulates(ph, stepsFrom) {
+						ok2 = true
+					}
+				}
+				if ph, isPhi := x.X.(*ssa.Phi); isPhi && accumulates(ph, stepsFrom) {
+					ok2 = true
+				}
+				if !ok2 {
+					good = false
+				}
+			case *ssa.Call:
+				arg, isLen := lenArg(x)
+				if !isLen {
+					good = false
+					break
+				}
+				for _, al := range expandRes(arg, 0) {
+					if ph, isPhi := stripConv(al).(*ssa.Phi); !isPhi || !accumulates(ph, appendsElem) {
+						good = false
+					}
+				}
+			default:
+				good = false
+			}
+		}
+		if good && len(leaves) > 0 {
+			okNI = true
+		} else {
+			okNI = false
+			break
+		}
+	}
 	c.Check("R13.4", "Event.numIndexed", ni.Pos(), okNI, "returns the number of elements of e.Inputs whose Indexed flag is set")
 }
 
@@ -510,4 +645,155 @@ func loopBodyEdges(fn *ssa.Function, in ssa.Instruction) map[*ssa.BasicBlock]boo
 		}
 	}
 	return out
+}
+
+// isFieldValueOrSlice: v is the value of field f, or f[:] where f is an array field
+func isFieldValueOrSlice(v ssa.Value, f *types.Var) bool {
+	v = stripConv(v)
+	if isLoadOfField(v, f) {
+		return true
+	}
+	if sl, ok := v.(*ssa.Slice); ok && sl.Low == nil && sl.High == nil {
+		x := stripConv(sl.X)
+		if fa, ok := x.(*ssa.FieldAddr); ok {
+			lf, _ := fieldOf(fa)
+			return lf == f
+		}
+		return isLoadOfField(x, f)
+	}
+	return false
+}
+
+// isSigHashFn: f is a method of Event every return of which is the legacy
+// Keccak-256 of []byte(e.Signature()) for its own receiver – as a slice, as an
+// array, directly or through another such method.
+func isSigHashFn(w *World, f *ssa.Function) bool {
+	return sigHashFn(w, f, 0)
+}
+
+func sigHashFn(w *World, f *ssa.Function, d int) bool {
+	if f == nil || f.Blocks == nil || d > 3 || f.Signature.Recv() == nil || !repoNamedIs(f.Signature.Recv().Type(), "dig", "Event") {
+		return false
+	}
+	kec := w.Fn("eth", "Keccak")
+	recv := f.Params[0]
+	isRecv := func(v ssa.Value) bool {
+		v = stripConv(v)
+		if u, ok := v.(*ssa.UnOp); ok && u.Op == token.MUL {
+			if al, ok := u.X.(*ssa.Alloc); ok {
+				if cv := cellValue(al); cv != nil {
+					v = stripConv(cv)
+				}
+			}
+		}
+		return v == ssa.Value(recv)
+	}
+	// keccakArg: v is Keccak(A) (possibly converted to an array, possibly through a wrapper in package eth): returns A
+	var keccakArg func(v ssa.Value, d2 int) ssa.Value
+	keccakArg = func(v ssa.Value, d2 int) ssa.Value {
+		if d2 > 4 {
+			return nil
+		}
+		v = stripConv(v)
+		switch x := v.(type) {
+		case *ssa.UnOp:
+			if x.Op == token.MUL {
+				if sp, ok := x.X.(*ssa.SliceToArrayPointer); ok {
+					return keccakArg(sp.X, d2+1)
+				}
+			}
+		case *ssa.Call:
+			cal := staticCallee(x)
+			if cal == kec {
+				return x.Call.Args[0]
+			}
+			if cal != nil && cal.Pkg == kec.Pkg && cal.Blocks != nil && len(cal.Params) == 1 {
+				// a wrapper: every return is Keccak(its parameter)
+				for _, r := range returnsOf(cal) {
+					if a := keccakArg(returnValues(r)[0], d2+1); a == nil || stripConv(a) != ssa.Value(cal.Params[0]) {
+						return nil
+					}
+				}
+				return x.Call.Args[0]
+			}
+		}
+		return nil
+	}
+	var good func(v ssa.Value, d2 int) bool
+	good = func(v ssa.Value, d2 int) bool {
+		if d2 > 5 {
+			return false
+		}
+		v = stripConv(v)
+		switch x := v.(type) {
+		case *ssa.Slice:
+			if x.Low != nil || x.High != nil {
+				return false
+			}
+			if al, ok := stripConv(x.X).(*ssa.Alloc); ok {
+				if cv := cellValue(al); cv != nil {
+					return good(cv, d2+1)
+				}
+				// `h := f(); return h[:]`: the array is written once and only sliced here
+				var st *ssa.Store
+				other := false
+				for _, ref := range *al.Referrers() {
+					switch r := ref.(type) {
+					case *ssa.Store:
+						if r.Addr == ssa.Value(al) && st == nil {
+							st = r
+						} else {
+							other = true
+						}
+					case *ssa.DebugRef:
+					case *ssa.Slice:
+						if r != x {
+							other = true
+						}
+					default:
+						other = true
+					}
+				}
+				if st != nil && !other {
+					return good(st.Val, d2+1)
+				}
+			}
+			return false
+		case *ssa.UnOp:
+			if x.Op == token.MUL {
+				if al, ok := x.X.(*ssa.Alloc); ok {
+					if cv := cellValue(al); cv != nil {
+						return good(cv, d2+1)
+					}
+				}
+			}
+		case *ssa.Call:
+			if cal := staticCallee(x); cal != nil && cal != f && cal.Signature.Recv() != nil && len(x.Call.Args) > 0 && isRecv(x.Call.Args[0]) && sigHashFn(w, cal, d+1) {
+				return true
+			}
+		}
+		a := keccakArg(v, 0)
+		if a == nil {
+			return false
+		}
+		conv, ok := a.(*ssa.Convert)
+		if !ok {
+			return false
+		}
+		sc, ok := conv.X.(*ssa.Call)
+		if !ok {
+			return false
+		}
+		sf := staticCallee(sc)
+		return sf != nil && sf.Name() == "Signature" && len(sc.Call.Args) > 0 && isRecv(sc.Call.Args[0])
+	}
+	rets := returnsOf(f)
+	for _, r := range rets {
+		for _, lf := range phiLeaves(returnValues(r)[0]) {
+			if !good(lf.Val, 0) {
+				return false
+			}
+		}
+	}
+	return len(rets) > 0
 }
